@@ -38,11 +38,13 @@ abbrev Leader := List (Term × Term)
 
 def Leader.get (l : Leader) (k : Term) : Option Term := lookupT l k
 
-def Leader.set (l : Leader) (k v : Term) : Leader :=
-  if (l.get k).isSome then l.map (fun kv => if kv.1 == k then (k, v) else kv) else l ++ [(k, v)]
+/-- a new element starts as a group of its own -/
+def Leader.ensure (l : Leader) (k : Term) : Leader :=
+  if (l.get k).isSome then l else l ++ [(k, k)]
 
-/-- `DisjointSet.add(a, b)` -/
+/-- `DisjointSet.add(a, b)`: the groups of `a` and `b` are merged, the lower-ranked leader leads -/
 def dsAdd (rank : Term → Int) (l : Leader) (a b : Term) : Option Leader :=
+  let l := (l.ensure a).ensure b
   match l.get a, l.get b with
   | some la, some lb =>
     if la == lb then some l
@@ -50,12 +52,7 @@ def dsAdd (rank : Term → Int) (l : Leader) (a b : Term) : Option Leader :=
       let c ← compareRank rank la lb
       let (la, lb) := if c > 0 then (lb, la) else (la, lb)
       pure (l.map (fun kv => if kv.2 == lb then (kv.1, la) else kv))
-  | some la, none => some (l.set b la)
-  | none, some lb => some (l.set a lb)
-  | none, none => do
-      let c ← compareRank rank a b
-      let (a, b) := if c > 0 then (b, a) else (a, b)
-      pure ((l.set a a).set b a)
+  | _, _ => some l
 
 /-- is the conjunct a definition `l = r` the propagation looks at? -/
 def isDefinition : Term → Option (Term × Term)
